@@ -32,7 +32,7 @@ ASSUMPTIONS = [
     'invalid fragment (removed by --no_rejects) = R1 absent/unmapped, pre-set qc-fail, or (nla) R1 without CATG: generator label, cross-checked against the default run',
 ]
 COMPONENTS = {'real': tc.TAGGER_REAL, 'stub': tc.TAGGER_STUB}
-REQUIRED_PROBES = ['input_header_declares_read_groups_subset', 'many_small_contigs_layout', 'index_stale', 'index_missing', 'contig_with_only_placed_unmapped_reads', 'multiprocess_lifetime', 'delivery_order_not_submission_order', 'small_group_and_large_contig', 'unplaced_reads', 'no_rejects_run', 'invalid_fragment_present', 'orphan_or_halfmapped', 'empty_contig']
+REQUIRED_PROBES = ['forked_worker_processes', 'input_header_declares_read_groups_subset', 'many_small_contigs_layout', 'index_stale', 'index_missing', 'contig_with_only_placed_unmapped_reads', 'multiprocess_lifetime', 'delivery_order_not_submission_order', 'small_group_and_large_contig', 'unplaced_reads', 'no_rejects_run', 'invalid_fragment_present', 'orphan_or_halfmapped', 'empty_contig']
 
 
 def plan(tier):
@@ -94,7 +94,9 @@ def generate(seed, tier):
               'header_rgs': weighted(w, [(None, 6), ('subset', 2), ('all', 1), ('other', 1)])}
     s = st.schedule
     modes = [{'mp': False, 'name': 'single'},
-             {'mp': True, 'name': 'multi', 'width': s.randint(1, 4), 'schedule': {'policy': 'seeded'}, 'seed': seed}]
+             {'mp': True, 'name': 'multi', 'width': s.randint(1, 4), 'schedule': {'policy': 'seeded'}, 'seed': seed,
+              # simulated workers either share the interpreter (atomic task bodies) or are real forked processes with private module state
+              'isolation': s.choice(['inproc', 'fork'])}]
     if (w.random() < 0.5 or force_nr) and method != 'qflag':   # qflag writes all reads by design (--no_rejects is overridden)
         modes += [dict(m, no_rejects=True, name=m['name'] + '/no_rejects') for m in modes]
     if s.random() < 0.015:
@@ -183,6 +185,8 @@ def execute(case):
             njobs = len(res.get('jobs', []))
             if mode.get('real_pool'):
                 probe('real_pool_crosscheck')
+            if mode.get('isolation') == 'fork':
+                probe('forked_worker_processes')
             if mode.get('mp'):
                 probe('multiprocess_lifetime')
                 if order != sorted(order):
